@@ -10,6 +10,7 @@ import logging
 import os
 import shutil
 import time
+import urllib.parse
 import warnings
 
 import numpy as np
@@ -21,7 +22,11 @@ RULE = ('a case = (kind chunk|rdb|token, retry configuration (total, connect, re
         'inside header length, inside header, first data byte, second data byte, last data byte}, reset / close / stall '
         'before the response header; all scripts up to a length bound over the fast symbols for the budgets '
         '{0,1,2}^2 plus random longer scripts incl. stalls; token cases = hand-made JWTs over the feature matrix '
-        '(segments, header, alg, signature length, payload, exp, prefix claim, scheme/host, scope). Non-trivial = the '
+        '(segments, header, alg, signature length, payload, exp, prefix claim, scheme/host, scope); session cases = a '
+        'HISTORY of get_chunk calls on ONE S3ChunkStore object (each call: bucket out of three, state of that bucket '
+        'at that moment full|empty|missing, stored chunk, fault scripts for the object and the listing requests): all '
+        'histories up to a length bound over an 11-symbol call alphabet x 2 buckets plus random longer histories over '
+        '3 buckets with changing bucket states, random budgets and all fault symbols; compared per call. Non-trivial = the '
         'script contains at least one fault or the token is rejected; distinct by the whole canonical case.')
 ASSUMPTIONS = [
     'urllib3 2.x / requests 2.x behaviour as installed (Retry.increment/is_exhausted, urlopen status retries, '
@@ -143,6 +148,12 @@ def model_case(case):
                     int(case['verified']), case['bucket'], case['fs'], case['fsb']]]
     if case['kind'] == 'rdb':
         return [9, [2, wire_cfg(case['cfg']), len(rdb_bytes()), case['fs']]]
+    if case['kind'] == 'session':
+        from fixtures.s3fake import LISTING_EMPTY, LISTING_FULL
+        return [92, [wire_cfg(case['cfg']),
+                     [[o['bucket'], o['state'], pls[o['payload']]['segs'],
+                       len(LISTING_FULL) if o['state'] == 0 else len(LISTING_EMPTY), o['fs'], o['fsb']]
+                      for o in case['ops']]]]
     t = case['token']
     p = pls[case['payload']]
     codes = lambda s: [ord(c) for c in s]
@@ -220,8 +231,114 @@ def impl_rdb(case, read_timeout):
     return cls, ''.join(k[0] for k in log), log
 
 
+BUCKET_NAMES = ('bkt', 'b_2', 'c3')       # the underscore is turned into a dash by make_url
+
+
+def bucket_of_path(path):
+    return path.split('?')[0].lstrip('/').split('/')[0]
+
+
+def impl_session(case, read_timeout):
+    """All calls of the history on ONE store object; per call (class, request kinds, log, verified-bucket ids | None)."""
+    from katdal.chunkstore_s3 import S3ChunkStore
+    fake, pls = env()
+    fake.max_wait = read_timeout + 2.0
+    fake.arm([], [], 'full', pls[0]['data'])
+    out = []
+    try:
+        store = S3ChunkStore(fake.url, timeout=(2, read_timeout), retries=retries_of(case['cfg']))
+    except Exception as e:
+        return [(classify_exc(e), '', [], None)]
+    norm = {n.replace('_', '-'): i for i, n in enumerate(BUCKET_NAMES)}
+    for o in case['ops']:
+        p = pls[o['payload']]
+        a = p['array']
+        slices = tuple(slice(0, n) for n in a.shape)
+        fake.arm([action(s) for s in o['fs']], [action(s) for s in o['fsb']], ('full', 'empty', 'missing')[o['state']],
+                 p['data'])
+        try:
+            c = store.get_chunk(BUCKET_NAMES[o['bucket']] + '/arr', slices, a.dtype)
+            ok = isinstance(c, np.ndarray) and c.dtype == a.dtype and c.shape == a.shape and np.array_equal(c, a)
+            cls = OK if ok else 7
+        except Exception as e:
+            cls = classify_exc(e)
+        log = fake.requests()
+        cache = getattr(store, '_verified_buckets', None)
+        try:
+            cache = sorted(norm[bucket_of_path(urllib.parse.urlsplit(u).path)] for u in cache)
+        except Exception:
+            cache = None      # not the representation we know: the cache is then only judged by what the calls return
+        out.append((cls, ''.join(k[0] for k in log), log, cache))
+    return out
+
+
 # ---------------------------------------------------------------------------------------------------
 # comparison
+
+def session_signature(case, k, mout, impl_cls, want_cls, what):
+    """Shape of the failing call (the last one kept in the case) and of what the same store saw before it."""
+    o = case['ops'][k]
+    used = o['fs'][:mout[k][1]]
+    usedb = o['fsb'][:mout[k][2]]
+    kinds = sorted({sym_kind(s) for s in used})
+    listing = 'none' if not mout[k][2] else ('faulty' if usedb else 'clean')
+    same = [j for j in range(k) if case['ops'][j]['bucket'] == o['bucket']]
+    coarse = {OK: 'ok', NOTFOUND: 'missing-chunk'}
+    before = sorted({coarse.get(mout[j][4][0], 'failed') for j in same})
+    return 'kind=session;call=%s;faults=%s;listing=%s;bucket=%s;evidence=%d;same_bucket_before=%s;other_buckets_before=%d;what=%s;impl=%s;want=%s' % (
+        'first' if k == 0 else 'later', '+'.join(kinds) or 'none', listing, ('full', 'empty', 'missing')[o['state']],
+        int(mout[k][5]), '+'.join(before) or 'none', int(len(same) < k), what,
+        CLASS_NAMES.get(impl_cls, impl_cls), CLASS_NAMES.get(want_cls, want_cls))
+
+
+def compare_session(ctx, case, mout, read_timeout=0.5, confirm=True):
+    """Per call: class vs spec (property) and vs model (tie), order and number of requests, the bucket that is listed,
+    the verified-bucket cache after the call.  Only the first disagreeing call of a history is reported (later ones may
+    merely follow from it); the case kept for the replay is the history up to and including that call."""
+    res = impl_session(case, read_timeout)
+    stale = bool(_state.get('stale'))
+    first = {}                      # 'property' / 'tie' -> (call, what, impl class, wanted class): first call only
+    for k, r in enumerate(res):
+        icls, ireq, log, cache = r
+        if k >= len(mout):
+            break
+        mcls, mo, mb, mcache, scls = mout[k][0][0], mout[k][1], mout[k][2], mout[k][3], mout[k][4][0]
+        want_req = 'O' * mo + 'B' * mb
+        listed = {bucket_of_path(e[2]) for e in log if e[0] == 'B'}
+        asked = {bucket_of_path(e[2]) for e in log if e[0] == 'O'}
+        if icls != scls:
+            first.setdefault('property', (k, 'result', icls, scls))
+        elif listed and listed != asked:
+            first.setdefault('property', (k, 'listed_another_bucket', icls, scls))
+        elif mcls != scls and not stale and not first:
+            first.setdefault('property', (k, 'model_vs_spec', mcls, scls))
+        if not stale:
+            if icls != mcls or ireq != want_req:
+                first.setdefault('tie', (k, 'result' if icls != mcls else 'requests', icls, mcls))
+            elif cache is not None and sorted(set(mcache)) != cache:
+                first.setdefault('tie', (k, 'verified_cache', icls, mcls))
+        if 'property' in first:
+            break                   # what follows a property violation on the same store object proves nothing more
+    if len(res) != len(case['ops']) and not first:
+        first['tie'] = (0, 'store_construction', res[0][0], OK)
+    if first and confirm and read_timeout < 2.0:
+        return compare_session(ctx, case, mout, read_timeout=2.5, confirm=False)
+    ctx.traces_validated += len(res)
+    if first and len({d['signature'] for d in ctx.disagreements}) >= 30:
+        first = {}
+        ctx.count('disagreements_beyond_30_signatures')
+    for kind, (at, what, a, b) in sorted(first.items()):
+        short = dict(case, ops=case['ops'][:at + 1])
+        icls, ireq, _, cache = res[min(at, len(res) - 1)]
+        ctx.disagree(session_signature(case, at, mout, a, b, what), short,
+                     dict(call=at, result=CLASS_NAMES.get(icls, icls), requests=ireq, verified_cache=cache,
+                          earlier=[CLASS_NAMES.get(r[0], r[0]) for r in res[:at]]),
+                     dict(model=mout[:at + 1]),
+                     'call %d of the history on one store object: implementation %s differs from %s (%s)' % (
+                         at, what, 'spec' if kind == 'property' else 'model', CLASS_NAMES.get(b, b)),
+                     spec=[m[4] for m in mout[:at + 1]], kind=kind)
+    return not first
+
 
 def signature(case, impl_cls, want_cls, what):
     # only the part of the script the model consumed decides the outcome
@@ -244,6 +361,8 @@ def signature(case, impl_cls, want_cls, what):
 def compare(ctx, case, mout, read_timeout=0.5, confirm=True):
     """Runs the implementation on `case` and compares with the model output; returns True if all agreed."""
     kind = case['kind']
+    if kind == 'session':
+        return compare_session(ctx, case, mout, read_timeout, confirm)
     case['_consumed'] = mout[1]
     if kind == 'chunk':
         case['_consumed_b'] = mout[2]
@@ -404,6 +523,90 @@ def gen_cases(ctx):
     return cases
 
 
+def session_cases(ctx):
+    """Histories of get_chunk calls on one store object."""
+    rng = ctx.rng
+    _, pls = env()
+    thorough = ctx.tier == 'thorough'
+    cases = []
+    G = list(GLITCHES)
+    # (a) all histories up to a length bound over a call alphabet x 2 buckets; budgets read = status = 1, so that
+    #     [503, 503] exhausts the listing and one cut body uses up the read budget of ONE call
+    def alphabet(pi):
+        k = rng.choice(offsets(pls[pi])[:-1] + [0])
+        return [dict(state=0, fs=[[0, 404]], fsb=[]),
+                dict(state=1, fs=[[0, 404]], fsb=[]),
+                dict(state=2, fs=[[0, 404]], fsb=[]),
+                dict(state=0, fs=[[0, 404]], fsb=[[0, 503], [0, 503]]),
+                dict(state=1, fs=[[0, 404]], fsb=[[0, rng.choice(G)], [0, rng.choice(G)]]),
+                dict(state=rng.choice((0, 1)), fs=[[0, 404]], fsb=[[0, rng.choice((403, 401, 400))]]),
+                dict(state=1, fs=[[0, 404]], fsb=[rng.choice(([1, 5], [2, 20], [4, 0], [0, 503]))]),
+                dict(state=rng.choice((0, 1, 2)), fs=[], fsb=[]),
+                dict(state=0, fs=[rng.choice(([1, k], [2, k]))], fsb=[]),
+                dict(state=0, fs=[rng.choice(([4, 0], [4, 2]))], fsb=[]),
+                dict(state=rng.choice((1, 2)), fs=[[0, rng.choice(G)], [0, 404]], fsb=[])]
+
+    def calls(pi):
+        return [dict(o, bucket=b, payload=rng.randrange(len(pls)) if o['fs'] != [[0, 404]] else pi)
+                for b in (0, 1) for o in alphabet(pi)]
+
+    cfg1 = [10, 1, 1, 1, G]
+    for n in (1, 2):
+        for ops in itertools.product(calls(rng.randrange(len(pls))), repeat=n):
+            cases.append(dict(kind='session', cfg=list(cfg1), ops=[dict(o) for o in ops]))
+    if thorough:   # length 3 over the 404 half of the alphabet (one bucket + one call in a second bucket)
+        al = [dict(o, bucket=0, payload=0) for o in alphabet(0)[:7]] + [dict(alphabet(0)[0], bucket=1, payload=1),
+                                                                        dict(alphabet(0)[8], bucket=0, payload=2),
+              dict(alphabet(0)[9], bucket=0, payload=3)]
+        for ops in itertools.product(al, repeat=3):
+            cases.append(dict(kind='session', cfg=list(cfg1), ops=[dict(o) for o in ops]))
+    # (b) random longer histories: 3 buckets whose state changes now and then, random budgets, all symbols
+    slow_left = [ctx.scale(12, 200)]
+
+    def rand_sym(p, listing=False):
+        r = rng.random()
+        ks = offsets(p) if not listing else [0, 3, 20, 60]
+        if r < 0.35:
+            return [0, rng.choice(G)]
+        if r < 0.60:
+            return [1, rng.choice(ks)]
+        if r < 0.72:
+            return [2, rng.choice(ks)]
+        if r < 0.84:
+            return [4, rng.choice((0, 2))]
+        if r < 0.90 and slow_left[0] > 0:
+            slow_left[0] -= 1
+            return rng.choice(([3, rng.choice(ks)], [4, 1]))
+        if listing:
+            return [0, rng.choice((403, 401, 400, 503))]
+        return [0, 503]
+
+    for _ in range(ctx.scale(170, 2500)):
+        if rng.random() < 0.5:
+            cfg = list(cfg1)
+        else:
+            opt = lambda hi: rng.choice([None] + list(range(hi + 1)) * 2)
+            cfg = [rng.choice((10, 10, None, 2, 3, 4)), rng.choice((0, 1, 2)), opt(2), opt(2),
+                   list(rng.choice([GLITCHES, GLITCHES, (503,), ()]))]
+        state = [rng.choice((0, 0, 1, 2)) for _ in BUCKET_NAMES]
+        ops = []
+        for _ in range(rng.randint(2, 7)):
+            b = rng.choice((0, 0, 0, 1, 1, 2))
+            if rng.random() < 0.12:
+                state[b] = rng.choice((0, 1, 2))
+            pi = rng.randrange(len(pls))
+            r = rng.random()
+            fs = [rand_sym(pls[pi]) for _ in range(rng.choice((0, 0, 0, 1, 1, 2)))]
+            if r < 0.62:
+                fs.append([0, 404])
+            elif r < 0.70:
+                fs.append([0, rng.choice((403, 401, 400))])
+            fsb = [rand_sym(pls[pi], listing=True) for _ in range(rng.choice((0, 0, 0, 1, 2, 3)))]
+            ops.append(dict(bucket=b, state=state[b], payload=pi, fs=fs, fsb=fsb))
+        cases.append(dict(kind='session', cfg=cfg, ops=ops))
+    return cases
+
+
 # ---------------------------------------------------------------------------------------------------
 # tokens
 
@@ -495,6 +698,21 @@ def run_cases(ctx, cases):
         if mouts is None:
             continue
         compare(ctx, c, mouts[i])
+        if c['kind'] == 'session':
+            ctx.note_case(canon(c), nontrivial=any(o['fs'] for o in c['ops']),
+                          sample=c if i % 97 == 0 else None)
+            ctx.count('kind=session')
+            ctx.count('session_calls', len(c['ops']))
+            ctx.count('session_len=%d' % len(c['ops']))
+            for k, o in enumerate(c['ops']):
+                ctx.count('session_result=' + CLASS_NAMES.get(mouts[i][k][4][0], '?'))
+                if k and mouts[i][k][4][0] == UNAVAIL and any(
+                        c['ops'][j]['bucket'] == o['bucket'] and mouts[i][j][4][0] in (UNAVAIL, GLITCH, AUTH)
+                        and c['ops'][j]['fs'][-1:] == [[0, 404]] for j in range(k)):
+                    ctx.count('session_repeated_404_in_unverified_bucket')
+                if mouts[i][k][5] and o['fs'][-1:] == [[0, 404]]:
+                    ctx.count('session_404_in_cached_bucket')
+            continue
         nontrivial = bool(c.get('fs')) or c['kind'] == 'token'
         ctx.note_case(canon(c), nontrivial=nontrivial,
                       sample={k: v for k, v in c.items() if k not in ('token_str', 'url', 'token')} if i % 97 == 0 else None)
@@ -515,6 +733,13 @@ def run(ctx):
         if not os.path.exists(os.path.join(core.EXTRACT_DIR, 'driver')):
             return
         _state['stale'] = True
+    else:
+        # the pipeline falls back to the last driver when the model no longer builds (broken translator item): its SPEC
+        # half is still the property, its MODEL half describes another tree - ties are not judged with it
+        from vh import core
+        stamp = os.path.join(core.EXTRACT_DIR, 'stamp')
+        if not os.path.exists(stamp) or open(stamp).read() != core.model_hash():
+            _state['stale'] = True
     env()
     # known-finding witnesses first (fixed ones must pass, open ones must still fail)
     for f in ctx.findings:
@@ -529,13 +754,16 @@ def run(ctx):
             if fn.endswith('.json'):
                 run_cases(ctx, [json.load(open(os.path.join(cdir, fn)))])
     run_cases(ctx, token_cases(ctx))
+    run_cases(ctx, session_cases(ctx))
     run_cases(ctx, gen_cases(ctx))
     ctx.exhaustive = False
     ctx.extra['exhaustive_part'] = ('all fault scripts of length <= %d over the %d fast symbols for the 9 (read, status) '
-                                    'budgets in {0,1,2}^2' % (3 if ctx.tier == 'thorough' else 2, 20))
+                                    'budgets in {0,1,2}^2; all histories of <= 2 get_chunk calls on one store object '
+                                    'over 11 call shapes x 2 buckets%s' % (3 if ctx.tier == 'thorough' else 2, 20,
+                                    ', of 3 calls over 10 call shapes' if ctx.tier == 'thorough' else ''))
     if ctx.tier == 'thorough':
         from vh import core
-        allc = gen_cases(ctx) + token_cases(ctx)
+        allc = gen_cases(ctx) + token_cases(ctx) + session_cases(ctx)[::7]
         sample = [model_case(c) for c in allc[::max(1, len(allc) // 250)][:250]]
         a = ctx.model(sample)
         # the clean rebuild of the thorough tier only compiled the cone of Props/C09.v: Dispatch needs every model
